@@ -439,6 +439,7 @@ TRUSTED_BASE = [
 
 WRAPPER_USES = []
 XML_CONSTS = {}
+GRAMMAR_DIFFS = {"xml": [], "xpath": []}
 
 
 def wrapper_diffs():
@@ -462,7 +463,8 @@ def regenerate():
     problems = []
     tabs = extract.char_tables()
     extract.write_char_tables(tabs)
-    global WRAPPER_USES, XML_CONSTS
+    global WRAPPER_USES, XML_CONSTS, GRAMMAR_DIFFS
+    gx = gp = None
     try:
         gx, gp = translate.translate_all()
         WRAPPER_USES = sorted(set(gx.wrapper_uses + gp.wrapper_uses))
@@ -471,6 +473,10 @@ def regenerate():
         problems.append("translate: %s" % e)
     except Exception as e:  # malformed source, unexpected shape
         problems.append("translate: %r" % e)
+    # the reviewed grammars (tools/ref/*.json) as Lean environments, and what differs from them now
+    translate.write_refs(gx, gp)
+    GRAMMAR_DIFFS = {"xml": translate.grammar_diffs("xml", gx) if gx is not None else [("(untranslatable)", None, None)],
+                     "xpath": translate.grammar_diffs("xpath", gp) if gp is not None else [("(untranslatable)", None, None)]}
     return tabs, problems
 
 
